@@ -189,6 +189,9 @@ func monitor(c hxlib.Case, outs []string) (vs []hxlib.Violation) {
 	if len(c.Lines) > 0 && strings.HasPrefix(c.Lines[0], "conc") {
 		return monitorConc(c, outs)
 	}
+	if len(c.Lines) > 0 && strings.HasPrefix(c.Lines[0], "hconc") {
+		return monitorHConc(c, outs)
+	}
 	seenSig := map[string]bool{}
 	add := func(i int, sig, what string) {
 		if seenSig[sig] {
